@@ -127,6 +127,9 @@ var voidNames = []string{"br", "hr", "input", "img"}
 
 var constVals = []struct{ val, quote string }{
 	{"v", `"`}, {"a b", `"`}, {"x&amp;y", `"`}, {"it&#39;s", `"`}, {"say &quot;hi&quot;", `"`}, {"a'b", `"`}, {"a\"b", `'`}, {"plain", ""}, {"é", `"`}, {"", `"`}, {"1&lt;2", `'`}, {"a=b", `"`}, {"p/q", `"`},
+	// references without a terminating semicolon and escaped ampersands in front of things that
+	// look like references: html.UnescapeString decodes legacy names and numbers without ';'
+	{"/l?id=1&amp;copy=2", `"`}, {"&amp;lt", `"`}, {"&amp;#38;region", `"`}, {"&amp;#60", `'`}, {"a&b", `"`}, {"&lt", `"`}, {"&amp;amp;", `"`}, {"x &amp;&amp; y", `"`}, {"&#x26;gt", `"`}, {"&copy", `"`},
 }
 
 func (g *gen) attr(depth int, elem string) Attr {
